@@ -25,6 +25,7 @@ RULE = (
     "max(end_timestamp), None iff no notes. Non-trivial iff a chord has unequal lengths, or the orange "
     "lane has a non-zero length, or a sustain crosses a tempo change, or the longest end is not on the "
     "last note; distinct = distinct (tempo map, section text)."
+    ' Also: flag lines before / between the lane lines of a chord; ticks that carry flag lines only (not asserted to yield an event; if they do, its sustain must be 0).'
 )
 ASSUMPTIONS = [
     "as C02 (open alone and first in its group, one line per (tick, lane), sorted N lines, no forced "
